@@ -376,6 +376,96 @@ pub(crate) enum Source {
     Connection,
 }
 
+/// Verification wrappers (cfg(iroh_verif) only).
+#[cfg(iroh_verif)]
+pub(crate) mod verif {
+    use std::{collections::BTreeSet, sync::Arc};
+
+    use iroh_base::{EndpointAddr, EndpointId};
+    use n0_watcher::Watchable;
+    use tokio::sync::oneshot;
+    use tokio_util::sync::CancellationToken;
+    use tracing::Span;
+
+    use super::{RemoteInfo, RemoteMap, RemoteStateMessage};
+    use crate::{
+        address_lookup::{AddressLookupFailed, AddressLookupServices},
+        socket::{
+            DirectAddr, Metrics as SocketMetrics,
+            biased_rtt_path_selector::BiasedRttPathSelector,
+        },
+    };
+
+    /// A [`RemoteMap`] with real per-remote actors, driven the way the socket actor drives it.
+    #[derive(Debug)]
+    pub struct RemoteMapHarness {
+        map: RemoteMap,
+        shutdown: CancellationToken,
+        _direct_addrs: Watchable<BTreeSet<DirectAddr>>,
+    }
+
+    impl RemoteMapHarness {
+        /// Creates the map; must be called inside a tokio runtime.
+        pub fn new(address_lookup: AddressLookupServices) -> Self {
+            let metrics = Arc::new(SocketMetrics::default());
+            let watchable: Watchable<BTreeSet<DirectAddr>> = Watchable::new(BTreeSet::new());
+            let shutdown = CancellationToken::new();
+            let map = RemoteMap::new(
+                metrics,
+                watchable.watch(),
+                address_lookup,
+                shutdown.clone(),
+                Arc::new(BiasedRttPathSelector::default()),
+                Span::none(),
+            );
+            Self {
+                map,
+                shutdown,
+                _direct_addrs: watchable,
+            }
+        }
+
+        /// `RemoteMap::resolve_remote`; the receiver yields the answer.
+        pub async fn resolve_remote(
+            &mut self,
+            addr: EndpointAddr,
+        ) -> oneshot::Receiver<Result<(), AddressLookupFailed>> {
+            let (tx, rx) = oneshot::channel();
+            self.map.resolve_remote(addr, tx).await;
+            rx
+        }
+
+        /// One iteration of the socket actor's cleanup branch: waits until an actor was removed.
+        pub async fn cleanup(&mut self) -> EndpointId {
+            self.map.cleanup().await
+        }
+
+        /// `RemoteMap::on_network_change`.
+        pub fn on_network_change(&mut self, is_major: bool) {
+            self.map.on_network_change(is_major);
+        }
+
+        /// Asks the remote's actor for its info through the sender map, like `Endpoint::remote_info`.
+        /// `None` if no actor is registered or its inbox is closed/full.
+        pub fn remote_info(&self, id: EndpointId) -> Option<oneshot::Receiver<RemoteInfo>> {
+            let sender = self.map.senders().get(&id)?;
+            let (tx, rx) = oneshot::channel();
+            sender.try_send(RemoteStateMessage::RemoteInfo(tx)).ok()?;
+            Some(rx)
+        }
+
+        /// Whether a sender for the remote is registered.
+        pub fn has_sender(&self, id: EndpointId) -> bool {
+            self.map.senders().get(&id).is_some()
+        }
+
+        /// Cancels the shutdown token handed to every actor.
+        pub fn shutdown(&self) {
+            self.shutdown.cancel();
+        }
+    }
+}
+
 #[cfg(test)]
 mod tests {
     use std::{net::SocketAddr, time::Duration};
